@@ -142,7 +142,7 @@ Fixpoint wrap_lines (W : nat) (cont : nat) (is_first : bool) (lines : list (list
       else
         match wrap_chunks W (if is_first then "" else blanks cont) (blanks cont) l,
               wrap_lines W cont is_first r with
-        | Some a, Some b => Some (List.app a b)
+        | Some a, Some b => Some (List.app (filter (fun x => negb (all_blank x)) a) b)   (* fix: blank-only wrapped lines are dropped *)
         | _, _ => None
         end
   end.
